@@ -185,6 +185,45 @@ Definition generate_index (hdrdec : bytes -> option (list bytes * N)) (codec : N
     end
   end.
 
+(* GenerateIndex over the reader NewReader(..).DataReader() hands out (io.ReaderAt sources, and the
+   generating branches of ReadOrGenerateIndex); [srt] is sort.Sort *)
+Definition generate_index_reader_at_with (srt : list irec -> list irec)
+    (hdrdec : bytes -> option (list bytes * N)) (codec : N) (o : gopts) (all : bytes) : res index :=
+  match idx_new codec with
+  | None => Err EOther
+  | Some i0 =>
+    match load_index_reader_at hdrdec o all with
+    | Err e => Err e
+    | Ok recs => Ok (idx_load_with srt recs i0)
+    end
+  end.
+
+(* ReadOrGenerateIndex(rs): ReadVersion; Seek(0); version 1: GenerateIndex(rs); version 2:
+   NewReader(ToReaderAt(rs)) -- the pragma again, the CARv2 header through a 40-byte section --
+   then, if the header has an index (IndexOffset <> 0), index.ReadFrom at IndexOffset (the index codec
+   option is ignored, nothing is scanned), else GenerateIndex over DataReader() *)
+Definition read_or_generate_index_with (srt : list irec -> list irec)
+    (hdrdec : bytes -> option (list bytes * N)) (codec : N) (o : gopts) (all : bytes) : res index :=
+  match read_header hdrdec (g_maxh o) all with
+  | Err e => Err e
+  | Ok (_, v, _, used) =>
+    if v =? 1 then generate_index_reader_at_with srt hdrdec codec o all
+    else if v =? 2 then
+      if negb (used =? 11) then Err EOther else      (* NewReader: pragma of exactly PragmaSize bytes *)
+      match read_v2hdr (take 40 (drop 11 all)) with
+      | Err e => Err e
+      | Ok (h, _) =>
+        if has_index h then
+          match idx_read (drop (h_ioff h) all) with
+          | Err e => Err e
+          | Ok (i, _) => Ok i
+          end
+        else generate_index_reader_at_with srt hdrdec codec o all
+      end
+    else Err EOther
+  end.
+Definition read_or_generate_index := read_or_generate_index_with sort_by_digest.
+
 (* ---- layer B: the sections of a constructed payload and what a lookup must return ----------- *)
 Fixpoint sections_at (off : N) (bs : list block) : list (N * block) :=
   match bs with
